@@ -219,7 +219,9 @@ class PlainLock:
 def _lock_factory(*a, **k):
     if LockHooks.factory is not None:
         return LockHooks.factory()
-    return PlainLock()
+    from . import sched
+
+    return sched.SchedLock()
 
 
 # ------------------------------------------------------------------------------------------------ atexit
